@@ -98,34 +98,47 @@ let str_sev = function
   | ESlotOwner -> "SlotOwner" | EEnd -> "End" | EClaim _ -> "Claim" | ESlotC -> "SlotPeer" | EKind -> "WakerKind"
   | ECasC _ -> "CasPeer" | EWakerReadC -> "WakerReadPeer" | EStoreC _ -> "StorePeer" | EUnpark -> "Unpark" | EWakeCall -> "WakeCall"
 
-let check_signals (evs : ev array) : string option =
+let check_signals (evs : ev array) : string option * string option =
   let sigs : (int, sigrec) Hashtbl.t = Hashtbl.create 8 in
   let last_sig = Hashtbl.create 8 in
   let cur_op = Hashtbl.create 8 in
   let err = ref None in
+  let site_err = ref None in
   let fail i n e why =
     if !err = None then
       err := Some (Printf.sprintf "step=%d thread=%d signal=S%d event=%s src=%s: %s" evs.(i).step evs.(i).tid n (str_sev e) evs.(i).src why) in
-  let site_check i n (e : ev) (own : bool) : bool =
+  (* the role mapping (which source site plays which role of the model) is validated separately: a mismatch does
+     not reject the trace - the events themselves, with the orderings actually passed, are what the model judges *)
+  let site_check i n (e : ev) (own : bool) : unit =
     match Hashtbl.find_opt sigs n, Hashtbl.find_opt sites e.src with
-    | None, _ -> true
+    | None, _ -> ()
     | Some _, None ->
-      (if !err = None then err := Some (Printf.sprintf "step=%d thread=%d signal=S%d src=%s: atomic operation at a site unknown to the translated site table" e.step e.tid n e.src)); false
+      if !site_err = None then site_err := Some (Printf.sprintf "step=%d thread=%d signal=S%d src=%s: atomic operation at a site unknown to the translated site table" e.step e.tid n e.src)
     | Some r, Some site ->
-      (* the final load of wait_timeout is where the deadline has passed *)
-      (if own && site = ("wait_timeout", 4) && r.st.s_o = OTimed then
-         match sstep r.st EDeadline with
-         | Some s1 ->
-           Hashtbl.replace covered (Printf.sprintf "%s/%s/%s/Deadline" (fl_name r.st) (str_opc r.st.s_o) (str_cpc r.st.s_c)) ();
-           r.st <- s1
-         | None -> ());
       let ok = if own then owner_site_ok r.st site else peer_site_ok r.st site in
-      if not ok && not r.dead then begin
-        (if !err = None then
-           err := Some (Printf.sprintf "step=%d thread=%d signal=S%d src=%s: %s#%d is not the atomic operation the protocol model expects in this state"
-                          e.step e.tid n e.src (fst site) (snd site)));
-        false end
-      else true in
+      if not ok && not r.dead && !site_err = None then
+        site_err := Some (Printf.sprintf "step=%d thread=%d signal=S%d src=%s: %s#%d is not the site that plays this role in the pinned mapping"
+                            e.step e.tid n e.src (fst site) (snd site)) in
+  (* a timed owner's load: the deadline has silently passed before it when what follows in that thread is not the
+     continuation of the spin loop (a fence after a low value, the next clock reading / yield, or the same load again) *)
+  let deadline_before_load i n (e : ev) =
+    match Hashtbl.find_opt sigs n with
+    | Some r when r.st.s_o = OTimed && not r.dead ->
+      let next = ref None in
+      (try for j = i + 1 to Array.length evs - 1 do
+           let f = evs.(j) in
+           if f.tid = e.tid && f.kind <> "OPB" then begin
+             next := Some (if f.kind = "LOAD" && f.src = e.src then "SAME" else f.kind); raise Exit end
+         done with Exit -> ());
+      (match !next with
+       | Some ("FENCE" | "NOW" | "YIELD" | "SLEEP" | "SAME") -> ()
+       | _ ->
+         (match sstep r.st EDeadline with
+          | Some s1 ->
+            Hashtbl.replace covered (Printf.sprintf "%s/%s/%s/Deadline" (fl_name r.st) (str_opc r.st.s_o) (str_cpc r.st.s_c)) ();
+            r.st <- s1
+          | None -> ()))
+    | _ -> () in
 
   let apply i n (e : sev) ~(optional : bool) =
     match Hashtbl.find_opt sigs n with
@@ -186,14 +199,19 @@ let check_signals (evs : ev array) : string option =
         | "ACC", "waker_read", Some n -> apply i n (if is_owner n then EWakerReadOwner else EWakerReadC) ~optional:false
         | "ACC", "waker_kind", Some n -> apply i n EKind ~optional:false
         | "ACC", ("slot_read" | "slot_write"), Some n -> apply i n (if is_owner n then ESlotOwner else ESlotC) ~optional:false
-        | ("LOAD" | "CAS" | "STORE"), _, Some n when Hashtbl.length sites > 0 && not (site_check i n e (is_owner n)) -> ()
-        | "LOAD", _, Some n -> if is_owner n then apply i n (ELoad (ord_of_code e.ord, stv_of_int e.res)) ~optional:false
+        | "LOAD", _, Some n ->
+          if is_owner n then deadline_before_load i n e;
+          if Hashtbl.length sites > 0 then site_check i n e (is_owner n);
+          if is_owner n then apply i n (ELoad (ord_of_code e.ord, stv_of_int e.res)) ~optional:false
           else fail i n (ELoad (ord_of_code e.ord, stv_of_int e.res)) "a peer loads the state of a signal it does not own"
         | "CAS", _, Some n ->
+          if Hashtbl.length sites > 0 then site_check i n e (is_owner n);
           let ok = e.res >= 256 in
           if is_owner n then apply i n (ECasO (ord_of_code e.ord, ord_of_code e.ord2, ok, stv_of_int (e.res land 255))) ~optional:false
           else apply i n (ECasC (ord_of_code e.ord, ord_of_code e.ord2, ok)) ~optional:false
-        | "STORE", _, Some n -> if is_owner n then fail i n (EStoreC (ord_of_code e.ord)) "the owner stores to its own signal state"
+        | "STORE", _, Some n ->
+          if Hashtbl.length sites > 0 then site_check i n e (is_owner n);
+          if is_owner n then fail i n (EStoreC (ord_of_code e.ord)) "the owner stores to its own signal state"
           else apply i n (EStoreC (ord_of_code e.ord)) ~optional:false
         | "FENCE", _, _ -> (match ls with Some n when is_owner n -> apply i n (EFence (ord_of_code e.ord)) ~optional:true | _ -> ())
         | "PARK", _, _ -> (match ls with Some n when is_owner n -> apply i n (EPark (e.res = 1)) ~optional:false | _ -> ())
@@ -202,7 +220,7 @@ let check_signals (evs : ev array) : string option =
         | ("YIELD" | "SLEEP" | "NOW"), _, _ -> (match ls with Some n when is_owner n -> apply i n EPause ~optional:true | _ -> ())
         | _ -> ()
       end) evs;
-  !err
+  (!err, !site_err)
 
 (* ---------------- lock acceptor ---------------- *)
 let check_mutex (evs : ev array) : string option =
@@ -508,7 +526,9 @@ let run_h2check () =
       let plist = List.sort compare (Hashtbl.fold (fun t l acc -> (t, l) :: acc) progs []) in
       let pr tag = function None -> Printf.printf "%s ok\n" tag | Some m -> Printf.printf "%s reject %s\n" tag m in
       Printf.printf "X %s\n" pid;
-      pr "A" (check_signals evs);
+      let (a_err, s_err) = check_signals evs in
+      pr "A" a_err;
+      pr "S" s_err;
       pr "M" (match check_mutex evs with Some m -> Some m | None -> check_waker_under_lock evs);
       pr "K" (check_lock_counts evs);
       (if verdict = "V ok" then pr "O" (try check_outcome cap plist with e -> Some ("checker exception " ^ Printexc.to_string e))
